@@ -20,8 +20,10 @@ import (
 
 	"github.com/vektah/gqlparser/v2"
 	"github.com/vektah/gqlparser/v2/ast"
+	"github.com/vektah/gqlparser/v2/gqlerror"
 
 	"github.com/99designs/gqlgen/graphql"
+	"github.com/99designs/gqlgen/graphql/handler/transport"
 )
 
 const SDL = `
@@ -84,7 +86,7 @@ func (l *Log) Count(prefix string) int {
 
 // SubStep is what a scripted subscription does next.
 type SubStep struct {
-	Kind string // "emit", "end", "error", "panic"
+	Kind string // "emit", "end", "error", "panic", "late-error" (transport.AddSubscriptionError, then end)
 	Val  int
 	Raw  string // when non-empty: raw JSON used as the field value instead of Val
 }
@@ -122,6 +124,14 @@ type logKey struct{}
 // WithLog makes events of operations run under ctx go to l instead of the schema's log
 // (several concurrent requests on one executor, each with its own log).
 func WithLog(ctx context.Context, l *Log) context.Context { return context.WithValue(ctx, logKey{}, l) }
+
+// LogOf returns the log events under ctx go to: the one set by WithLog, else def.
+func LogOf(ctx context.Context, def *Log) *Log {
+	if l, ok := ctx.Value(logKey{}).(*Log); ok && l != nil {
+		return l
+	}
+	return def
+}
 
 func (s *Schema) log(ctx context.Context) *Log {
 	if l, ok := ctx.Value(logKey{}).(*Log); ok && l != nil {
@@ -370,6 +380,10 @@ func (s *Schema) Exec(ctx context.Context) graphql.ResponseHandler {
 				return &graphql.Response{Data: []byte("null")}
 			case "panic":
 				panic("subscription panic")
+			case "late-error":
+				// an error reported after the stream started: the transport sends it when the stream ends
+				transport.AddSubscriptionError(ctx, gqlerror.Errorf("late error of %s(%s)", f.Name, fmtArgs(args)))
+				return nil
 			default:
 				return nil
 			}
